@@ -585,7 +585,8 @@ Section Flat.
   Proof. intros ND Hin. now apply in_assoc. Qed.
 
   Lemma remap_interface_flat F t i x c y c' :
-    Col t -> get_if t i = Some x -> flat_if t x -> MInv c -> rm_get (TInterface i) (c_remapped c) = None ->
+    Col t -> get_if t i = Some x -> flat_if t x -> MInv c ->
+    (forall nm, i_id x = Some nm -> rm_get (TInterface i) (c_remapped c) = None) ->
     (forall nm, i_id x = Some nm -> assoc nm (c_ifaces c) = None /\ find_compat nm (ord (c_ifaces c)) = None) ->
     remap_interface ord cf F t i c = AOk (y, c') ->
     exists exs, LoopSt y c' (i_id x) exs /\ id_idx y = length (t_interfaces (c_types c)) /\
@@ -596,7 +597,8 @@ Section Flat.
       c_ifaces c' = match i_id x with Some nm => ins nm y (c_ifaces c) | None => c_ifaces c end /\
       (forall j z, get_if (c_types c) j = Some z -> get_if (c_types c') j = Some z) /\
       (forall i', i' <> i -> rm_get (TInterface i') (c_remapped c') = rm_get (TInterface i') (c_remapped c)) /\
-      rm_get (TInterface i) (c_remapped c') = Some (TInterface y).
+      rm_get (TInterface i) (c_remapped c') =
+        match i_id x with Some _ => Some (TInterface y) | None => rm_get (TInterface i) (c_remapped c) end.
   Proof.
     intros Ct Hg [Hu [ND Hall]] I Hnone Hlook H. destruct F as [|f]; [discriminate|]. cbn [remap_interface] in H.
     apply bindM_ok in H as [x0 [c0 [H0 H]]]. rewrite Hg in H0. cbn [idxM] in H0. apply ret_ok in H0 as [-> ->].
@@ -607,25 +609,31 @@ Section Flat.
         unfold lookup_iface in H1. rewrite L1, L2 in H1. injection H1 as <- <-. now apply ret_ok in H0 as [-> ->].
       - now apply ret_ok in H0 as [-> ->]. }
     destruct Hhit as [-> ->]. clear H0.
-    apply bindM_ok in H as [r [c0 [H0 H]]]. unfold remapped_get in H0. injection H0 as <- <-. rewrite Hnone in H.
+    apply bindM_ok in H as [r [c0 [H0 H]]].
+    assert (Hr : r = None /\ c0 = c).
+    { destruct (i_id x) as [nm|] eqn:Hid.
+      - unfold remapped_get in H0. injection H0 as <- <-. split; auto. exact (Hnone nm eq_refl).
+      - now apply ret_ok in H0 as [-> ->]. }
+    destruct Hr as [-> ->]. clear H0.
     apply bindM_ok in H as [us [c0 [H0 H]]]. rewrite Hu in H0. cbn [mapM] in H0. apply ret_ok in H0 as [-> ->].
     apply bindM_ok in H as [es [c1 [H1 H]]].
     destruct (copy_exports f t _ _ _ _ Ct I Hall H1) as [I1 [E1 [K1 [F1 [N1 P1]]]]].
     apply bindM_ok in H as [y0 [c2 [H2 H]]]. unfold add_if in H2. injection H2 as <- <-.
-    apply bindM_ok in H as [u [c3 [H3 H]]]. unfold remapped_new in H3. cbn [c_remapped with_types] in H3.
-    rewrite (x_noif _ _ E1), Hnone in H3. injection H3 as H3. subst c3.
     apply bindM_ok in H as [u2 [c4 [H4 H]]]. apply ret_ok in H as [-> ->].
     set (T1 := c_types c1) in *. set (newif := {| i_id := i_id x; i_uses := []; i_exports := es |}) in *.
     set (T2 := t_with_interfaces T1 (t_interfaces T1 ++ [newif])) in *.
     set (ynew := {| id_tag := t_tag T1; id_idx := length (t_interfaces T1) |}) in *.
-    set (c3 := with_remapped (with_types c1 T2) (rm_ins (TInterface i) (TInterface ynew) (c_remapped c1))) in *.
+    set (c3 := with_remapped (with_types c1 T2)
+                 (match i_id x with Some _ => rm_ins (TInterface i) (TInterface ynew) (c_remapped c1) | None => c_remapped c1 end)) in *.
     assert (Hc4 : c_types c4 = T2 /\ c_imports c4 = c_imports c1 /\ c_remapped c4 = c_remapped c3 /\ c_chk c4 = c_chk c1 /\
                   c_ifaces c4 = match i_id x with Some nm => ins nm ynew (c_ifaces c) | None => c_ifaces c end).
-    { destruct (i_id x) as [nm|] eqn:Hid.
-      - unfold iface_new in H4. cbn [c_ifaces c3 with_remapped with_types] in H4. rewrite (x_ifaces _ _ E1) in H4.
+    { subst c3. destruct (i_id x) as [nm|] eqn:Hid.
+      - apply bindM_ok in H4 as [u [c3 [H3 H4]]]. unfold remapped_new in H3. cbn [c_remapped with_types] in H3.
+        rewrite (x_noif _ _ E1), (Hnone nm eq_refl) in H3. injection H3 as H3. subst c3.
+        unfold iface_new in H4. cbn [c_ifaces with_remapped with_types] in H4. rewrite (x_ifaces _ _ E1) in H4.
         destruct (Hlook nm eq_refl) as [L1 _]. unfold has_key in H4. rewrite L1 in H4. injection H4 as H4. subst c4.
-        cbn [c_types c_imports c_remapped c_chk c_ifaces with_ifaces with_remapped with_types c3]. auto.
-      - apply ret_ok in H4 as [_ ->]. cbn [c_types c_imports c_remapped c_chk c_ifaces with_remapped with_types c3].
+        cbn [c_types c_imports c_remapped c_chk c_ifaces with_ifaces with_remapped with_types]. auto.
+      - apply ret_ok in H4 as [_ ->]. cbn [c_types c_imports c_remapped c_chk c_ifaces with_remapped with_types].
         repeat split; auto. apply E1. }
     destruct Hc4 as [Q1 [Q2 [Q3 [Q4 Q5]]]].
     assert (E2 : ext T1 T2) by apply ext_upd_if.
@@ -635,6 +643,7 @@ Section Flat.
     - split.
       + rewrite Q1. apply (mi_tag _ I1).
       + intros k k' Hk. rewrite Q3 in Hk. rewrite Q1. cbn [c_remapped c3 with_remapped] in Hk.
+        destruct (i_id x) as [nm|]; [|eapply entry_ok_ext; [exact E2|]; now apply (mi_rinv _ I1)].
         destruct (ty_eqb (TInterface i) k) eqn:Ek.
         * apply tyeqb_eq in Ek. subst k. cbn [entry_ok]. exact Logic.I.
         * rewrite rm_get_ins_other in Hk; [|intro X; apply tyeqb_eq in X; congruence].
@@ -658,7 +667,8 @@ Section Flat.
       + reflexivity.
       + intros j z Hj. unfold get_if in *. cbn [t_tag t_interfaces t_with_interfaces T2]. unfold T1.
         rewrite (x_if _ _ E1), (ext_tag _ _ (x_types _ _ E1)). eapply lookup_prefix; [apply prefix_app|exact Hj].
-      + intros i' N. cbn [c_remapped c3 with_remapped]. rewrite rm_get_ins_other; [apply (x_noif _ _ E1)|]. congruence.
-      + cbn [c_remapped c3 with_remapped]. apply rm_get_ins_same.
+      + intros i' N. cbn [c_remapped c3 with_remapped]. destruct (i_id x); [|apply (x_noif _ _ E1)].
+        rewrite rm_get_ins_other; [apply (x_noif _ _ E1)|]. congruence.
+      + cbn [c_remapped c3 with_remapped]. destruct (i_id x); [apply rm_get_ins_same | apply (x_noif _ _ E1)].
   Qed.
 End Flat.
